@@ -46,10 +46,34 @@ GENS = ["c40"]
 
 
 class Pins:
+    resolvable = set()
     user = "alice"
     gethostname = "box.lan.example"
     fqdn = "box.lan.example.org"
     home = "/home/alice"
+
+
+def exec_stub(cmd):
+    """Same definition as exec_stub in Model/C40.v: `eq A B` succeeds iff A == B, `ok ...` succeeds."""
+    w = cmd.replace("\t", " ").split(" ")
+    w = [x for x in w if x]
+    if len(w) == 3 and w[0] == "eq":
+        return w[1] == w[2]
+    return bool(w) and w[0] == "ok"
+
+
+class InvokeStub:
+    """Stands in for the `invoke` module inside paramiko.config (Match exec)."""
+    class _Result:
+        def __init__(self, ok):
+            self.ok = ok
+
+    calls = []
+
+    @classmethod
+    def run(cls, cmd, hide=None, warn=None):
+        cls.calls.append(cmd)
+        return cls._Result(exec_stub(cmd))
 
 
 class ToySha1:
@@ -74,7 +98,15 @@ def pinned():
     import getpass
     import socket
     import paramiko.config as pc
-    saved = (getpass.getuser, socket.gethostname, socket.getfqdn, os.environ.get("HOME"), pc.sha1)
+    saved = (getpass.getuser, socket.gethostname, socket.getfqdn, os.environ.get("HOME"), pc.sha1,
+             socket.gethostbyname, pc.invoke)
+
+    def resolver(name):
+        if name in Pins.resolvable:
+            return "192.0.2.1"
+        raise socket.gaierror(-2, "Name or service not known")
+    socket.gethostbyname = resolver
+    pc.invoke = InvokeStub
     getpass.getuser = lambda: Pins.user
     socket.gethostname = lambda: Pins.gethostname
     socket.getfqdn = lambda *a: Pins.fqdn
@@ -84,6 +116,7 @@ def pinned():
     finally:
         getpass.getuser, socket.gethostname, socket.getfqdn = saved[0], saved[1], saved[2]
         pc.sha1 = saved[4]
+        socket.gethostbyname, pc.invoke = saved[5], saved[6]
         if saved[3] is None:
             os.environ.pop("HOME", None)
         else:
@@ -91,7 +124,8 @@ def pinned():
 
 
 def set_env(envt):
-    Pins.user, Pins.gethostname, Pins.fqdn, Pins.home = envt
+    Pins.user, Pins.gethostname, Pins.fqdn, Pins.home = envt[:4]
+    Pins.resolvable = set(envt[4]) if len(envt) > 4 else set()
     os.environ["HOME"] = Pins.home
 
 
@@ -131,6 +165,9 @@ DISPLAY = {
     "proxyjump": ["ProxyJump"], "forwardagent": ["ForwardAgent"], "compression": ["Compression", "compression"],
     "serveraliveinterval": ["ServerAliveInterval"], "localforward": ["LocalForward", "localforward"],
     "stricthostkeychecking": ["StrictHostKeyChecking"],
+    "canonicalizehostname": ["CanonicalizeHostname", "canonicalizehostname"],
+    "canonicaldomains": ["CanonicalDomains", "canonicaldomains"],
+    "canonicalizemaxdots": ["CanonicalizeMaxDots"], "canonicalizefallbacklocal": ["CanonicalizeFallbackLocal"],
 }
 
 
@@ -204,6 +241,32 @@ def gen_body(rng, maxlines=5):
     return body
 
 
+EXEC_CMDS = ["ok", "ok %h", "no", "eq %h web1", "eq %u alice", "eq %p 22", "eq %n %h", "eq %r bob", "eq %L box",
+             "eq  %h  gw-web"]
+CANON_KEYS = {
+    "canonicalizehostname": ["yes", "yes", "always", "no", "YES"],
+    "canonicalizemaxdots": ["0", "1", "2", "3"],
+    "canonicaldomains": None,           # filled from DOMAINS
+    "canonicalizefallbacklocal": ["yes", "no", "no"],
+}
+
+
+def gen_canon_lines(rng):
+    """Canonicalisation options (for the global section or a block)."""
+    out = []
+    if rng.random() < 0.9:
+        out.append(("canonicalizehostname", rng.choice(CANON_KEYS["canonicalizehostname"])))
+    if rng.random() < 0.85:
+        doms = rng.sample(DOMAINS, rng.choice([1, 2, 3]))
+        out.append(("canonicaldomains", rng.choice([" ", "  ", "\t"]).join(doms)))
+    if rng.random() < 0.5:
+        out.append(("canonicalizemaxdots", rng.choice(CANON_KEYS["canonicalizemaxdots"])))
+    if rng.random() < 0.4:
+        out.append(("canonicalizefallbacklocal", rng.choice(CANON_KEYS["canonicalizefallbacklocal"])))
+    rng.shuffle(out)
+    return out
+
+
 def gen_criteria(rng, hosts, static):
     if rng.random() < 0.2:
         pre = []
@@ -212,12 +275,15 @@ def gen_criteria(rng, hosts, static):
         return pre + [("all", False, "")]
     out = []
     kinds = ["originalhost", "localuser"] if static else ["host", "originalhost", "user", "localuser", "final", "host",
-                                                         "user"]
+                                                         "user", "exec"]
     for _ in range(rng.choice([1, 1, 2, 3])):
         t = rng.choice(kinds)
         neg = rng.random() < 0.2
         if t == "final":
             out.append((t, neg, ""))
+            continue
+        if t == "exec":
+            out.append((t, neg, rng.choice(EXEC_CMDS)))
             continue
         if t in ("user", "localuser"):
             pats = [gen_pattern(rng, rng.choice(USERS)) for _ in range(rng.choice([1, 1, 2]))]
@@ -232,8 +298,17 @@ def gen_criteria(rng, hosts, static):
     return out
 
 
-def gen_config(rng, static):
+def gen_config(rng, static, canon=False):
     hosts = [gen_host(rng) for _ in range(rng.choice([2, 3, 4]))]
+    names = list(hosts)                 # the names looked up
+    resolvable = []
+    if canon:
+        for h in names:
+            for d in DOMAINS:
+                if rng.random() < 0.3:
+                    resolvable.append(h + "." + d)
+        # patterns are also derived from canonical names so that blocks match after the re-lookup
+        hosts = hosts + [h + "." + rng.choice(DOMAINS) for h in names]
     nblocks = rng.choice([0, 1, 2, 3, 4, 5, 6, 8, 10, 12])
     blocks = []
     for _ in range(nblocks):
@@ -243,10 +318,20 @@ def gen_config(rng, static):
         else:
             blocks.append({"match": gen_criteria(rng, hosts, static), "body": gen_body(rng)})
     glob = gen_body(rng, 3) if rng.random() < 0.3 else []
-    lookups = list(hosts[:2])
+    if canon:
+        where = rng.random()
+        if where < 0.6 or not blocks:
+            glob = gen_canon_lines(rng) + glob
+        else:
+            b = rng.choice(blocks)
+            b["body"] = gen_canon_lines(rng) + b["body"]
+        if rng.random() < 0.3 and blocks:
+            blocks[rng.randrange(len(blocks))]["body"].append(
+                ("canonicalizehostname", rng.choice(["no", "yes"])))
+    lookups = list(names[:2])
     if rng.random() < 0.3:
         lookups.append(gen_host(rng))
-    return {"global": glob, "blocks": blocks}, lookups
+    return {"global": glob, "blocks": blocks, "resolvable": resolvable}, lookups
 
 
 def render(cfg, rng):
@@ -273,7 +358,9 @@ def render(cfg, rng):
             toks = []
             for t, neg, param in b["match"]:
                 toks.append(("!" if neg else "") + t)
-                if t not in ("all", "canonical", "final"):
+                if t == "exec":
+                    toks.append('"' + param + '"')
+                elif t not in ("all", "canonical", "final"):
                     toks.append(param)
             lines.append(rng.choice(["Match", "match"]) + " " + " ".join(toks))
         emit_body(b["body"], indent)
@@ -315,7 +402,7 @@ def impl_hostnames(text):
 
 
 CT = {"all": "CAll", "canonical": "CCanonical", "final": "CFinal", "host": "CHost", "originalhost": "COrigHost",
-      "user": "CUser", "localuser": "CLocalUser"}
+      "user": "CUser", "localuser": "CLocalUser", "exec": "CExec"}
 
 
 def zs(s):
@@ -384,14 +471,14 @@ def clean(s):
     return "%" not in s and "~" not in s
 
 
-def crit_applies(match, host, envt, oh, ou, final):
+def crit_applies(match, host, envt, oh, ou, final, canonical=False):
     """All criteria of a Match line hold.  `oh` / `ou`: the (raw) HostName / User values obtained from the
     earlier applying blocks, None when not yet set."""
     for t, neg, param in match:
         if t == "all":
             return True
         if t == "canonical":
-            ok = False                        # never a canonicalised lookup on the fragment
+            ok = canonical
         elif t == "final":
             ok = final
         elif t == "host":
@@ -420,11 +507,12 @@ def block_view(body):
     return d
 
 
-def sel(blocks, host, envt, final, oh, ou, k):
+def sel(blocks, host, envt, final, oh, ou, k, canonical=False):
     """Closed form of C40_two_pass: (found, value, block) of key k in the first block that applies and sets
     k, applicability being decided with the HostName / User of the earlier applying blocks only."""
     for b in blocks:
-        if patterns_apply(b["host"], host) if "host" in b else crit_applies(b["match"], host, envt, oh, ou, final):
+        if patterns_apply(b["host"], host) if "host" in b else \
+                crit_applies(b["match"], host, envt, oh, ou, final, canonical):
             d = block_view(b["body"])
             if k in d:
                 return True, d[k], b
@@ -435,11 +523,12 @@ def sel(blocks, host, envt, final, oh, ou, k):
     return False, None, None
 
 
-def coll(blocks, host, envt, final, oh, ou):
+def coll(blocks, host, envt, final, oh, ou, canonical=False):
     """IdentityFile values of the applying blocks in order (same bookkeeping as sel)."""
     out = []
     for b in blocks:
-        if patterns_apply(b["host"], host) if "host" in b else crit_applies(b["match"], host, envt, oh, ou, final):
+        if patterns_apply(b["host"], host) if "host" in b else \
+                crit_applies(b["match"], host, envt, oh, ou, final, canonical):
             d = block_view(b["body"])
             out += d.get("identityfile", [])
             if oh is None and "hostname" in d:
@@ -449,39 +538,70 @@ def coll(blocks, host, envt, final, oh, ou):
     return out
 
 
+def has_exec(cfg):
+    return any("match" in b and any(t == "exec" for t, _, _ in b["match"]) for b in cfg["blocks"])
+
+
 def expected_lookup(cfg, host, envt):
-    """{key: value | SKIP}: the property computed by brute force over the structured config, for every
-    modelled criterion (first pass, HostName default, final pass — as in theorem C40_two_pass)."""
+    """("out", {key: value | SKIP}) or ("exn", class name), or None when the config uses Match exec (whose
+    outcome depends on every option obtained so far; covered by the model correspondence only).
+    The property computed by brute force over the structured config: first pass, HostName default,
+    canonicalisation decision from the first pass's options, then ONE second pass — plain, or the canonical
+    re-lookup under the canonical name (theorems C40_relookup / C40_canonical_plan)."""
+    if has_exec(cfg):
+        return None
     allblocks = [{"host": ["*"], "body": cfg["global"]}] + cfg["blocks"]
+    resolvable = set(envt[4]) if len(envt) > 4 else set()
     keys = []
     for b in allblocks:
         for k, _ in b["body"]:
             if k not in keys:
                 keys.append(k)
+
+    def first1(k):
+        found, v, _ = sel(allblocks, host, envt, False, None, None, k)
+        return v if found else None
     f1h, h1, _ = sel(allblocks, host, envt, False, None, None, "hostname")
-    f1u, u1, _ = sel(allblocks, host, envt, False, None, None, "user")
-    oh2 = h1 if f1h else host
-    ou2 = u1 if f1u else None
+    u1 = first1("user")
+    # which second pass
+    target, canonical = host, False
+    md = first1("canonicalizemaxdots")
+    if first1("canonicalizehostname") in ("yes", "always") and host.count(".") <= (int(md) if md is not None else 1):
+        cd = first1("canonicaldomains")
+        if cd is None:
+            return ("exn", "KeyError")
+        canonical = True
+        for dom in cd.split():
+            if host + "." + dom in resolvable:
+                target = host + "." + dom
+                break
+        else:
+            if first1("canonicalizefallbacklocal") not in (None, "yes"):
+                return ("exn", "CouldNotCanonicalize")
+    oh2 = target if canonical else (h1 if f1h else host)
+    ou2 = u1
     raw = {}
     skip = set()
-    for k in keys:
-        if k == "identityfile":
+    for k in keys + ["hostname"]:
+        if k == "identityfile" or k in raw:
+            continue
+        if k == "hostname":
+            raw[k] = oh2
             continue
         found, v, blk = sel(allblocks, host, envt, False, None, None, k)
-        if not found and k != "hostname":
-            found, v, blk = sel(allblocks, host, envt, True, oh2, ou2, k)
+        if not found:
+            found, v, blk = sel(allblocks, target, envt, True, oh2, ou2, k, canonical)
         if found:
             raw[k] = v
             if k == "proxycommand" and quirky_proxy(blk["body"]):
                 skip.add(k)
     ids = []
-    for x in coll(allblocks, host, envt, False, None, None) + coll(allblocks, host, envt, True, oh2, ou2):
+    for x in coll(allblocks, host, envt, False, None, None) + coll(allblocks, target, envt, True, oh2, ou2, canonical):
         if x not in ids:
             ids.append(x)
+    host = target              # tokens are expanded under the name of the second pass
     if ids:
         raw["identityfile"] = ids
-    if "hostname" not in raw:
-        raw["hostname"] = host
     # expansion: simultaneous substitution of the documented tokens (exact when every
     # substituted text is itself free of % and ~)
     hn = raw["hostname"].replace("%h", host)
@@ -509,7 +629,7 @@ def expected_lookup(cfg, host, envt):
         out[k] = [sub(x) for x in v] if isinstance(v, list) else sub(v)
     if not clean(host):
         out["hostname"] = SKIP
-    return out
+    return ("out", out)
 
 
 class _Skip:
